@@ -18,7 +18,7 @@ RULE = (
     "exhaustive matrix in fresh interpreters: DLTYPE_DISABLE in {unset, 0, 1, true, false, yes, lower-case variable name=1} x "
     "DLTYPE_DEBUG_MODE in {unset, 0, 1} x logging level in {default, DEBUG}; inside each interpreter: the three decorators x enabled in "
     "{default, True, False}: `decorator(obj) is obj`, and the verdict vector of a fixed 33-call corpus (single, optional and tuple hints, a named literal followed by its bare name) (accepting and rejecting calls, all "
-    "error kinds) through each decorated object, and the decoration of six objects whose hints the enabled decorators refuse (general Union, non-tensor base, `self` provider on a plain function, no dltype hint). Expectation: identity iff the effective `enabled` is false (Lean decision table "
+    "error kinds) through each decorated object, a function behind a scope provider whose sizes are numpy integers, and the decoration of six objects whose hints the enabled decorators refuse (general Union, non-tensor base, `self` provider on a plain function, no dltype hint). Expectation: identity iff the effective `enabled` is false (Lean decision table "
     "Properties/C13.lean), verdict vectors equal to the baseline configuration's. non-trivial = every (configuration, decorator, enabled) triple"
 )
 TRUSTED_EXTRA = ["environment parsing is pydantic-settings' (observed in subprocesses, not modelled)"]
@@ -66,8 +66,10 @@ CORPUS = [
  (Z(2,3), None, None, TD, Z(3,4), Z(3)), (Z(2,3), None, None, TD, Z(3,4), Z(5)), (Z(2,3), None, None, TD, Z(4,4), Z(4)), (Z(2,3), None, None, TD, None, Z(7)),
 ]
 def verdicts(obj):
+    return verdicts_of(obj, CORPUS)
+def verdicts_of(obj, corpus):
     out = []
-    for args in CORPUS:
+    for args in corpus:
         try:
             obj(*args); out.append("ok")
         except dltype.DLTypeError as e:
@@ -90,6 +92,13 @@ def odd():
     class D1:
         x: Annotated[int, A]
     return {"dltyped": [(g1, {}), (g2, {}), (g3, {"scope_provider": "self"}), (g4, {})], "dltyped_namedtuple": [(N1, {})], "dltyped_dataclass": [(D1, {})]}
+class ProvNP:
+    # sizes that are integers but not Python ints (np.prod / .max() / indexing an integer array hand back such values)
+    def get_dltype_scope(self):
+        return {"a": np.int64(2), "k": np.prod([1, 3])}
+def provider_verdicts(kw):
+    def g(x: Annotated[np.ndarray, dltype.FloatTensor["a k"]], y: Annotated[np.ndarray, dltype.FloatTensor["a*k"]] | None = None): return 1
+    return verdicts_of(dltype.dltyped(ProvNP(), **kw)(g), [(Z(2,3),), (Z(2,3), Z(6)), (Z(3,3),), (Z(2,3), Z(5)), (Z(2,4),)])
 def decorations(kind, dec, kw):
     out = []
     for obj, extra in odd()[kind]:
@@ -108,7 +117,7 @@ for kind, dec, idx in (("dltyped", dltype.dltyped, 0), ("dltyped_namedtuple", dl
         d = dec(**kw)(obj)
         # a dataclass is patched in place: "the class itself, untouched" = same object and same __init__
         res[f"{kind}/{en}"] = {"identity": (d is obj) and (kind != "dltyped_dataclass" or getattr(d, "__init__", None) is init0), "verdicts": verdicts(d),
-                               "odd": decorations(kind, dec, kw)}
+                               "odd": decorations(kind, dec, kw), "prov": provider_verdicts(kw) if kind == "dltyped" else []}
 print(json.dumps(res))
 '''
 
@@ -167,6 +176,10 @@ def custom(run, tier):
                 if got["odd"] != want_odd:
                     i = next(i for i, (a, b) in enumerate(zip(got["odd"], want_odd)) if a != b)
                     run.findings.append(Finding("failing-input", f"{kind}(enabled={en}) under DISABLE={dis} DEBUG_MODE={dbg}: decorating object #{i} whose hints the enabled decorator refuses gives {got['odd'][i]!r}, expected {want_odd[i]!r}", c, got["odd"][i]))
+                want_prov = base[f"{kind}/True"]["prov"] if enabled else ["ok"] * len(got["prov"])
+                if got["prov"] != want_prov:
+                    i = next(i for i, (a, b) in enumerate(zip(got["prov"], want_prov)) if a != b)
+                    run.findings.append(Finding("failing-input", f"{kind}(enabled={en}) under DISABLE={dis} DEBUG_MODE={dbg} logging={lvl}: with a scope provider whose sizes are numpy integers, call {i} gives {got['prov'][i]!r}, baseline {want_prov[i]!r}", c, got["prov"][i]))
                 want = base_verdicts if enabled else ["ok"] * len(base_verdicts)
                 # constructions of disabled classes / calls of disabled functions never check; enabled ones give the baseline's verdicts and reports
                 if kind == "dltyped":
